@@ -63,6 +63,7 @@ class Sim:
         self.suspended = 0
         self.fifo_content = {}  # world-relative path -> what the (one-shot) writer wrote
         self.fifo_opens = {}
+        self.locale_encoding = None  # world["locale"]: the encoding open() uses when the caller names none (None = the real one)
         self.fifo_one_shot = False  # opt-in per scenario (world["fifo_one_shot"]); otherwise a FIFO is simply at EOF
 
     # ---- canonicalisation -------------------------------------------------------------------
@@ -406,11 +407,34 @@ def sim_open(file, mode="r", *a, **k):
                 raise WouldBlockForever("second open() of the one-shot FIFO %s would block for ever" % s.canon(rp))
             rel = _os.path.relpath(rp, s.real_root)
             return SimFile(io.StringIO(s.fifo_content.get(rel, "")), p)
+    if s.locale_encoding and "b" not in mode and "encoding" not in k and len(a) < 2:
+        k["encoding"] = s.locale_encoding  # text mode without an explicit encoding: the locale's (simulated) encoding
+        s.probe("open-under-simulated-locale")
     f = builtins.open(file, mode, *a, **k)
     return SimFile(f, file if isinstance(file, str) else repr(file))
 
 
 _INSTALLED = False
+
+
+class LocaleProxy:
+    """what jsonargparse sees of the locale module: the preferred encoding is the simulated one"""
+
+    def __getattr__(self, name):
+        import locale as _locale
+
+        return getattr(_locale, name)
+
+    def getpreferredencoding(self, do_setlocale=True):
+        import locale as _locale
+
+        s = CUR
+        if s is not None and s.locale_encoding:
+            return s.locale_encoding
+        return _locale.getpreferredencoding(do_setlocale)
+
+    def getencoding(self):
+        return self.getpreferredencoding(False)
 
 
 def install_seams():
@@ -425,4 +449,5 @@ def install_seams():
     U.open = sim_open
     C.open = sim_open
     C.glob = GlobProxy()
+    C.locale = LocaleProxy()  # (a module global of _core since the repair that checks encodability before opening)
     _INSTALLED = True
